@@ -299,6 +299,7 @@ pub fn cfg() -> BoxedStrategy<Cfg> {
             min_pipeline_buffer: m,
             batch_threshold: t,
             read_buffer_size: r,
+            max_buffer_size: 0,
         })
         .boxed()
 }
